@@ -57,3 +57,8 @@ Fixpoint find_sub (p l : list N) : option (list N * list N) :=
                end
   end.
 
+
+(* linear-time reverse for extracted code (List.rev is quadratic); equal to rev *)
+Definition frev {A} (l : list A) : list A := rev_append l [].
+Lemma frev_rev {A} (l : list A) : frev l = rev l.
+Proof. unfold frev. rewrite rev_append_rev. apply app_nil_r. Qed.
